@@ -17,6 +17,8 @@ Z3_TIMEOUT_MS = int(os.environ.get('VERIF_Z3_TIMEOUT_MS', '20000'))
 # spec helpers over abstract values
 
 def lst_get(l, j):
+    if getattr(l, 'transient', None) is not None:
+        raise Unsupported('specification evaluated while a core list holds a transient non-4-d array')
     if l.items is not None:
         s = l.snapshot()
         s.to_fn()
@@ -255,6 +257,9 @@ def verify_function(contract, inst, registry):
             except KeyError:
                 c.param_names = []
     ctx = Ctx(contract, inst, registry, contract.name)
+    loops = [n for n in ast.walk(node) if isinstance(n, (ast.For, ast.While))]
+    loops.sort(key=lambda n: (n.lineno, n.col_offset))
+    ctx.loop_ordinals = {id(n): k for k, n in enumerate(loops)}
     state = State(ctx)
     ex = Executor(ctx, dict(MODULE_GLOBALS))
     res = {'function': contract.name, 'inst': contract.inst_name(inst), 'hash': ast_hash(node), 'obligations': [], 'unsupported': None}
